@@ -1,7 +1,16 @@
 (* Coherence (CoRR / CoWR / CoRW / CoWW) of ONE atomic cell over SEQUENCES of
-   operations by SEVERAL threads: an invariant-based proof for the model's
-   (repaired, loom fix c0421c4) apply_load_coherence, and counterexamples for
-   the rule as it was before that fix.
+   operations by SEVERAL threads.
+
+   THREE load-coherence rules ([rule], [alc_g]):
+     RBefore  [alc_before_fix]: apply_load_coherence before fix c0421c4 (only the
+              loaded store is raised) -- verbatim local copy;
+     RC0421   [alc_c0421c4]: the rule of fix c0421c4 (the raise is propagated to
+              the mo-successors of the loaded store) -- verbatim local copy;
+     RModel   the MODEL's current apply_load_coherence = the c0421c4 rule
+              followed by close_rmw_atomicity (fix D19): [model_alc_eq],
+              [atomic_load_g_model], [atomic_rmw_g_model] (all by reflexivity):
+              "mstep RModel" is literally Atomic.atomic_load / atomic_rmw /
+              atomic_store / match_load_to_stores / match_rmw_to_stores.
 
    MACHINE ([mstep tr], [mrun tr], [minit]).  State = (atomic_state, clocks :
    list vv).  Steps of thread t, exactly as Ops.v does them (own clock
@@ -14,75 +23,76 @@
      XSync u       clock_t := clock_t join clock_u (ANY other synchronisation).
    Stores/RMWs are refused when the ring is full (at_cnt = 7): wrap-around is
    out of scope.  Start: thread 0 creates the cell with clock [1;0;0;0;0]
-   (atomic_new), n <= MAX_THREADS threads, all clocks equal to the creator's
-   clock (spawned by it).  The constructors are called XLoad ... because
-   Objects.v already has ALoad/AStore/ARmw.
-   The flag [tr] selects the load coherence:
-   - tr = true: the MODEL's functions: [atomic_load_g_true],
-     [atomic_rmw_g_true] (atomic_load_g true = atomic_load, atomic_rmw_g true =
-     atomic_rmw, by reflexivity).  Every theorem below about "mstep true" is a
-     theorem about Atomic.atomic_load / atomic_rmw / atomic_store /
-     match_load_to_stores / match_rmw_to_stores.
-   - tr = false: the HISTORICAL rule [alc_before_fix], a verbatim copy of
-     apply_load_coherence before the fix (only the loaded store is raised).
+   (atomic_new), n <= MAX_THREADS threads, all clocks equal to the creator's.
 
-   FINDINGS about the historical rule (tr = false), all by vm_compute; the
-   first and the fourth were also observed on the real loom before the fix:
-   - [coherence_counterexample_before_fix] (CoWR FALSE, 2 threads, Relaxed):
-       T1: a.store(20); a.store(30); v = a.load();   T0: a.store(40); a.load();
-     T0's load may read 20 (it has not seen 30); that load joined mo(40) into
-     mo(20) IN PLACE, after which mo(20) and mo(30) were incomparable: the edge
-     20 <mo 30 was lost and T1 could read its own older store 20 (v = 20).
-   - [corr_counterexample_before_fix]: the same with T2 reading 30, then 20.
-   - [assert_ne_counterexample_before_fix]: a run after which two live stores
-     have EQUAL clocks: match_load_to_stores / match_rmw_to_stores return None,
-     i.e. loom's assert_ne!(mo_i, mo_j) ("TODO: this sometimes fails") fires.
-   - [rmw_counterexample_before_fix]: two RMWs read the same store (lost
-     update: T1: store 10. T2: store 20; fetch_add(1). T3: load 10; load 20;
-     fetch_add(1) reads 20 again, final value 21).
-   [coherence_counterexample_repaired] and the last conjuncts: the model's
-   functions refuse these runs.
+   WHAT IS PROVED, AND FOR WHICH RULE
 
-   PROVED for the model's functions (tr = true), all closed:
-   - invariant [InvO own s cs] ([Inv] = exists own): ring shape, clocks bounded
-     (no clock/mo/sync knows more about thread u than u itself), every live
-     store a has an owner own a and a key hbk a = its thread's own component at
-     the store, stamped in st_seen and <= mo_a[own a]; and with
-     K a b := hbk a <= mo_b[own a]:
-       [i_star]  K a b -> vle mo_a mo_b      (knowing the key = dominating)
-       [i_D]     a <> b -> K a b -> K b a -> False.
-     [minit_inv], [mstep_inv] / [mstep_ext], [mrun_inv], [reach_inv].
-     Consequences: [lt_iff_K] (vv_lt on live stores is exactly K),
-     [live_mo_distinct].
-     [StampO] / [Inv2]: additionally every first-seen stamp st_seen[u] is
-     <= clock_u[u] and st_seen has MAX_THREADS entries ([mstep_inv2],
-     [mrun_inv2], [minit_inv2], [reach_inv2]).
-   - [mlts_never_none]: along every run match_load_to_stores and
-     match_rmw_to_stores never return None (assert_ne! never fires).
-   - [step_stable] / [run_stable]: vv_lt between live stores, once true, stays
-     true forever (the key lemma); [step_knows] / [run_knows]: "thread u has
-     seen store i" (loom's is_seen_by_current, [knows]) is stable.
-   - how a thread comes to know a store: [load_knows] (its own load, needs the
-     stamp bound), [store_knows] (its own store), [sync_knows] (any
-     synchronisation edge u -> t carries u's knowledge to t).
-   - [CoRR_CoWR] (happens-before version): if at some state t knows j and
-     i <mo j there, then after ANY further steps of any threads XLoad i by t is
-     refused; [CoRR_CoWR_rmw]: an RMW never reads a store that ever was
-     mo-before another one.
-   - [CoWW_CoRW] (happens-before version): a new store is strictly mo-after
-     every store its thread knows; by [run_stable] for ever.
-   - same-thread versions without any [knows] hypothesis, arbitrary steps of
-     arbitrary threads in between: [CoRR_same_thread], [CoWR_same_thread],
-     [CoRW_same_thread], [CoWW_same_thread].
-   - [search_repaired], [stale_read_example]: sanity search and non-vacuity.
+   (a) RBefore, by vm_compute (first and fourth also seen on the real loom
+       before c0421c4): [coherence_counterexample_before_fix] (CoWR false: T1:
+       store 20; store 30; load -> 20 after T0: store 40; load 20),
+       [corr_counterexample_before_fix], [assert_ne_counterexample_before_fix]
+       (two live stores with equal clocks: assert_ne! fires),
+       [rmw_counterexample_before_fix] (two RMWs read the same store).
 
-   NOT proved: (1) the RMW's own new store being mo-after its source (follows
-   the same way from the stamp bound; not done); (2) ring wrap-around;
-   (3) RMW atomicity against LOADS: [rmw_gap_example] shows that the model
-   still lets loads order a store between an RMW's source and the RMW's write
-   (20 <mo 10 <mo 21 with 21 = fetch_add of 20): the propagation of
-   apply_load_coherence would also have to apply the RMW-atomicity closure of
-   atomic_store_from to every clock it raises. *)
+   (b) RC0421: the full invariant development, every name with the suffix
+       _c0421c4 (these are theorems about the LOCAL copy [alc_c0421c4], i.e.
+       about the model as it was between c0421c4 and the D19 fix):
+       invariant [InvO] / [Inv] / [StampO] / [Inv2] ([minit_inv], [minit_inv2],
+       [mstep_ext_c0421c4], [mstep_inv_c0421c4], [mrun_inv_c0421c4],
+       [mrun_inv2_c0421c4], [reach_inv_c0421c4], [reach_inv2_c0421c4]);
+       [mlts_never_none_c0421c4]; [step_stable_c0421c4] / [run_stable_c0421c4]
+       (vv_lt between live stores is never lost); [step_knows_c0421c4] /
+       [run_knows_c0421c4]; [load_knows_c0421c4], [store_knows_c0421c4],
+       [sync_knows_c0421c4]; [CoRR_CoWR_c0421c4], [CoRR_CoWR_rmw_c0421c4],
+       [CoWW_CoRW_c0421c4] (happens-before versions); [CoRR_same_thread_c0421c4],
+       [CoWR_same_thread_c0421c4], [CoRW_same_thread_c0421c4],
+       [CoWW_same_thread_c0421c4].  And its gap: [rmw_gap_before_fix] (loads
+       order 20 <mo 10 <mo 21 with 21 = fetch_add of 20).
+
+   (c) RModel (the model's CURRENT functions):
+       PROVED (closed):
+       - [model_alc_eq]: model rule = c0421c4 rule + close_rmw_atomicity;
+       - [close_no_src], [model_alc_no_src]: when no store in the ring is the
+         store of an RMW the closure is the identity and apply_load_coherence
+         = alc_c0421c4; [mstep_model_eq], [mrun_model_eq]: on RMW-free runs the
+         model's machine IS the c0421c4 machine; hence
+         [reach_model_rmw_free_c0421c4]: every state the model's functions
+         reach by an RMW-free run satisfies every theorem of (b)
+         ([model_rmw_free_inv] spells out Inv2 and "assert_ne! never fires").
+       COMPUTED (vm_compute):
+       - [rmw_gap_refused]: both orders of the D19 gap are refused by the model
+         (I1 resp. I2 of the closure added the forcing edge);
+       - [model_refuses_old_counterexamples];
+       - [search_closure_clean]: all stores / loads / RMWs of 4 threads x 3
+         steps and 3 threads x 4 steps after the prefix store 10 | store 20;
+         fetch_add: no vv_lt edge is ever lost, no two live stores have equal
+         clocks, RMW atomicity holds ([atom_viol]: every live RMW store is
+         strictly after its live source and no live store is strictly between)
+         and the state is closed under close_step after EVERY step (also after
+         stores, which do not run the closure).  (Outside this file the same
+         checker ran clean on 4 threads x 4 steps, 3 threads x 5 steps from
+         five prefixes and ~30 000 random walks of 12-14 steps, on a local
+         re-implementation of the rule.)
+       NOT PROVED for RModel on runs WITH RMWs: that [InvO] survives
+       close_rmw_atomicity (hence mrun_inv2, mlts_never_none, run_stable,
+       CoRR_CoWR, CoRR_CoWR_rmw, CoWW_CoRW, the *_same_thread theorems for the
+       model with RMWs) and the new invariant rmw_atomicity_stable.  Reason:
+       each raise of the closure is an instance of the generic "raise a above
+       b" step, which preserves InvO iff not (a <=mo b); for I1 / I2 that side
+       condition is "no live store strictly between the RMW and its source" IN
+       THE CURRENT, PARTIALLY CLOSED state.  This is not inductive over the
+       closure's own steps from syntactic facts alone (a raise for one RMW pair
+       can momentarily put a store between another pair whose own raise is
+       still pending); the inductive statement is semantic: "the live stores
+       have a LINEAR extension of vv_lt in which every RMW store immediately
+       follows its source" -- every I1 / I2 / transitivity edge is forced by
+       that extension, so the witness survives the whole closure unchanged,
+       and only the c0421c4 step (new read-read edges x -> idx for the seen x)
+       has to construct a new extension (contract every RMW chain to a block;
+       closedness makes the quotient a partial order; the candidate condition
+       excludes cycles there).  Fuel: each productive round adds a vv_lt pair
+       and a strict order on 7 stores has at most 21 pairs < 4 * 7.  Not done
+       within the time box. *)
 Require Import LV.Base LV.VV LV.VVFacts LV.Path LV.Prog LV.Objects LV.Atomic LV.AtomicFacts LV.AtomicCoherence.
 From Coq Require Import Lia.
 
@@ -103,12 +113,47 @@ Definition alc_before_fix (s : atomic_state) (caus : vv) (index : nat) : atomic_
       (index_list (at_stores s)) (st_mo (get_store s index)) in
   at_set_stores s (list_upd (at_stores s) index (fun x => st_set_mo x mo)) (at_cnt s).
 
-(* tr = true: the model's (repaired) apply_load_coherence; tr = false: the
-   historical rule *)
-Definition alc_g (tr : bool) (s : atomic_state) (caus : vv) (index : nat) : atomic_state :=
-  if tr then apply_load_coherence s caus index else alc_before_fix s caus index.
+(* The rule of fix c0421c4 (a verbatim copy of apply_load_coherence as it was
+   between c0421c4 and the D19 fix): the raise of the loaded store is propagated
+   to its mo-successors; no RMW-atomicity closure. *)
+Definition alc_c0421c4 (s : atomic_state) (caus : vv) (index : nat) : atomic_state :=
+  let mo :=
+    fold_left
+      (fun mo ix =>
+         let '(i, x) := ix in
+         if Nat.eqb index i then mo
+         else
+           let mo := if is_seen_by_current (st_seen x) caus then vv_join mo (st_mo x) else mo in
+           if vv_lt (st_hb x) caus then vv_join mo (st_mo x) else mo)
+      (index_list (at_stores s)) (st_mo (get_store s index)) in
+  let before := st_mo (get_store s index) in
+  let stores1 := list_upd (at_stores s) index (fun x => st_set_mo x mo) in
+  let stores2 :=
+    if vv_eqb mo before then stores1
+    else mapi (fun i x => if negb (Nat.eqb index i) && vv_lt before (st_mo x)
+                          then st_set_mo x (vv_join (st_mo x) mo) else x) stores1 in
+  at_set_stores s stores2 (at_cnt s).
 
-Definition loadpart_g (tr : bool) (s1 : atomic_state) (me : nat) (caus : vv) (index : nat)
+(* which load-coherence rule the machine uses *)
+Inductive rule := RBefore | RC0421 | RModel.
+
+Definition alc_g (tr : rule) (s : atomic_state) (caus : vv) (index : nat) : atomic_state :=
+  match tr with
+  | RModel => apply_load_coherence s caus index
+  | RC0421 => alc_c0421c4 s caus index
+  | RBefore => alc_before_fix s caus index
+  end.
+
+(* the model's rule = the c0421c4 rule followed by the RMW-atomicity closure *)
+Lemma model_alc_eq : forall s caus index,
+  apply_load_coherence s caus index =
+  at_set_stores s
+    (close_rmw_atomicity (4 * MAX_ATOMIC_HISTORY) (Nat.min (at_cnt s) MAX_ATOMIC_HISTORY)
+       (at_stores (alc_c0421c4 s caus index)))
+    (at_cnt s).
+Proof. reflexivity. Qed.
+
+Definition loadpart_g (tr : rule) (s1 : atomic_state) (me : nat) (caus : vv) (index : nat)
   : atomic_state :=
   let s2 := alc_g tr s1 caus index in
   at_set_stores s2
@@ -116,7 +161,7 @@ Definition loadpart_g (tr : bool) (s1 : atomic_state) (me : nat) (caus : vv) (in
        (fun x => st_set_seen x (seen_touch (st_seen x) me (vv_get caus me))))
     (at_cnt s2).
 
-Definition atomic_load_g (tr : bool) (s : atomic_state) (me : nat) (caus : vv) (index : nat)
+Definition atomic_load_g (tr : rule) (s : atomic_state) (me : nat) (caus : vv) (index : nat)
            (o : ord) : (atomic_state * vv * N) + panic :=
   match track_load s caus with
   | inr p => inr p
@@ -126,7 +171,7 @@ Definition atomic_load_g (tr : bool) (s : atomic_state) (me : nat) (caus : vv) (
       inl (s3, sync_load caus (st_sync x) o, st_value x)
   end.
 
-Definition atomic_rmw_g (tr : bool) (s : atomic_state) (me : nat) (caus released : vv)
+Definition atomic_rmw_g (tr : rule) (s : atomic_state) (me : nat) (caus released : vv)
            (index : nat) (so fo : ord) (f : N -> option N)
   : (atomic_state * vv * N * bool) + panic :=
   match track_load s caus with
@@ -150,13 +195,13 @@ Definition atomic_rmw_g (tr : bool) (s : atomic_state) (me : nat) (caus released
       end
   end.
 
-(* with tr = true these ARE the model's functions *)
-Lemma atomic_load_g_true : forall s me caus index o,
-  atomic_load_g true s me caus index o = atomic_load s me caus index o.
+(* with tr = RModel these ARE the model's functions *)
+Lemma atomic_load_g_model : forall s me caus index o,
+  atomic_load_g RModel s me caus index o = atomic_load s me caus index o.
 Proof. reflexivity. Qed.
 
-Lemma atomic_rmw_g_true : forall s me caus released index so fo f,
-  atomic_rmw_g true s me caus released index so fo f =
+Lemma atomic_rmw_g_model : forall s me caus released index so fo f,
+  atomic_rmw_g RModel s me caus released index so fo f =
   atomic_rmw s me caus released index so fo f.
 Proof. reflexivity. Qed.
 
@@ -173,7 +218,7 @@ Definition mstate := (atomic_state * list vv)%type.
 
 Definition clk (cs : list vv) (t : nat) : vv := nth t cs vv_new.
 
-Definition mstep (tr : bool) (st : mstate) (t : nat) (op : aop) : option mstate :=
+Definition mstep (tr : rule) (st : mstate) (t : nat) (op : aop) : option mstate :=
   let '(s, cs) := st in
   if negb (Nat.ltb t (length cs)) then None else
   match op with
@@ -214,7 +259,7 @@ Definition mstep (tr : bool) (st : mstate) (t : nat) (op : aop) : option mstate 
       end
   end.
 
-Fixpoint mrun (tr : bool) (st : mstate) (evs : list (nat * aop)) : option mstate :=
+Fixpoint mrun (tr : rule) (st : mstate) (evs : list (nat * aop)) : option mstate :=
   match evs with
   | [] => Some st
   | (t, op) :: r => match mstep tr st t op with Some st' => mrun tr st' r | None => None end
@@ -229,13 +274,13 @@ Definition minit (n : nat) (v0 : N) : option mstate :=
   | inr _ => None
   end.
 
-Definition mrun0 (tr : bool) (n : nat) (evs : list (nat * aop)) : option mstate :=
+Definition mrun0 (tr : rule) (n : nat) (evs : list (nat * aop)) : option mstate :=
   match minit n 0%N with Some st => mrun tr st evs | None => None end.
 
 (* ---- observation helpers ---- *)
 Definition mo_of (st : mstate) (i : nat) : vv := st_mo (get_store (fst st) i).
 Definition mo_lt (st : mstate) (i j : nat) : bool := vv_lt (mo_of st i) (mo_of st j).
-Definition cands (tr : bool) (st : option mstate) (t : nat) (o : ord) : option (list nat) :=
+Definition cands (tr : rule) (st : option mstate) (t : nat) (o : ord) : option (list nat) :=
   match st with
   | Some (s, cs) => match_load_to_stores s t (vv_inc (clk cs t) t) None o
   | None => None
@@ -271,7 +316,7 @@ Definition moves (n : nat) : list (nat * aop) :=
 Fixpoint first_some {A B} (f : A -> option B) (l : list A) : option B :=
   match l with [] => None | a :: r => match f a with Some b => Some b | None => first_some f r end end.
 
-Fixpoint search (tr : bool) (n : nat) (fuel : nat) (st : mstate) (trace : list (nat * nat * nat))
+Fixpoint search (tr : rule) (n : nat) (fuel : nat) (st : mstate) (trace : list (nat * nat * nat))
   : option (list (nat * nat * nat)) :=
   match fuel with
   | 0 => None
@@ -521,10 +566,10 @@ Section InvFacts.
 End InvFacts.
 
 (* ================================================================== *)
-(* 5. the load phase of the model's (repaired) apply_load_coherence      *)
+(* 5. the load phase of the c0421c4 rule                                 *)
 
 Lemma alc_eq : forall s c idx,
-  apply_load_coherence s c idx =
+  alc_c0421c4 s c idx =
   at_set_stores s
     (if vv_eqb (alc_mo s c idx) (st_mo (get_store s idx))
      then list_upd (at_stores s) idx (fun x => st_set_mo x (alc_mo s c idx))
@@ -536,7 +581,7 @@ Proof. reflexivity. Qed.
 
 Lemma loadpart_tr_get : forall s t c idx k,
   length (at_stores s) = MAX_ATOMIC_HISTORY -> idx < MAX_ATOMIC_HISTORY -> k < MAX_ATOMIC_HISTORY ->
-  get_store (loadpart_g true s t c idx) k =
+  get_store (loadpart_g RC0421 s t c idx) k =
     if Nat.eqb k idx
     then st_set_seen (st_set_mo (get_store s idx) (alc_mo s c idx))
                      (seen_touch (st_seen (get_store s idx)) t (vv_get c t))
@@ -574,7 +619,7 @@ Proof.
 Qed.
 
 Lemma loadpart_tr_frame : forall s t c idx,
-  let s' := loadpart_g true s t c idx in
+  let s' := loadpart_g RC0421 s t c idx in
   at_cnt s' = at_cnt s /\ at_mutating s' = at_mutating s /\
   at_unsync_mut s' = at_unsync_mut s /\ at_unsync_loaded s' = at_unsync_loaded s /\
   length (at_stores s') = length (at_stores s).
@@ -627,7 +672,7 @@ Section LoadPhase.
     is_seen_by_current (st_seen (get_store s x)) c = true ->
     vv_lt (mo s idx) (mo s x) = false.
 
-  Let s' := loadpart_g true s t c idx.
+  Let s' := loadpart_g RC0421 s t c idx.
   Let M := alc_mo s c idx.
   Let C (k : nat) : Prop := k = idx \/ vv_lt (mo s idx) (mo s k) = true.
 
@@ -1199,7 +1244,7 @@ Section StorePhase.
 End StorePhase.
 
 (* ================================================================== *)
-(* 8. every step of the repaired machine preserves the invariant        *)
+(* 8. every step of the c0421c4 machine preserves the invariant         *)
 
 Section StepFacts.
   Variable own : nat -> nat.
@@ -1273,7 +1318,7 @@ Qed.
 
 Lemma load_phase_ext : forall own s cs t c idx,
   InvO own s cs -> idx < at_cnt s ->
-  ext own s own (loadpart_g true s t c idx).
+  ext own s own (loadpart_g RC0421 s t c idx).
 Proof.
   intros own s cs t c idx HI Hidx. split; [apply le_n|].
   intros a Ha. assert (H7 : a < MAX_ATOMIC_HISTORY) by (pose proof (i_cnt7 HI); lia).
@@ -1366,7 +1411,7 @@ Qed.
 Lemma stamp_load : forall own s cs0 cs cs' t c idx,
   InvO own s cs0 -> idx < at_cnt s -> StampO s cs ->
   (forall u, vle (clk cs u) (clk cs' u)) -> vv_get c t <= vv_get (clk cs' t) t ->
-  StampO (loadpart_g true s t c idx) cs'.
+  StampO (loadpart_g RC0421 s t c idx) cs'.
 Proof.
   intros own s cs0 cs cs' t c idx HI Hidx HS Hg Hc.
   pose proof (@stamp_clock s cs cs' HS Hg) as [Hb Hl].
@@ -1423,8 +1468,8 @@ Proof. intros s cs c [Hb Hl]. constructor; [exact Hb | exact Hl]. Qed.
 Lemma stamp_ts : forall s cs c, StampO s cs -> StampO (ts_state s c) cs.
 Proof. intros s cs c [Hb Hl]. constructor; [exact Hb | exact Hl]. Qed.
 
-Theorem mstep_ext : forall own s cs t op s' cs',
-  InvO own s cs -> mstep true (s, cs) t op = Some (s', cs') ->
+Theorem mstep_ext_c0421c4 : forall own s cs t op s' cs',
+  InvO own s cs -> mstep RC0421 (s, cs) t op = Some (s', cs') ->
   exists own', InvO own' s' cs' /\ ext own s own' s' /\
                length cs' = length cs /\ (forall u, vle (clk cs u) (clk cs' u)) /\
                (StampO s cs -> StampO s' cs').
@@ -1442,7 +1487,7 @@ Proof.
     unfold atomic_load_g in Hstep.
     rewrite (track_load_ok' HI Ht (sf_le cs t : vle (clk cs t) c)) in Hstep. cbv zeta in Hstep.
     inversion Hstep as [[Hs' Hcs']]. clear Hstep. subst s' cs'.
-    assert (HI3 : InvO own (loadpart_g true (tl_state s c) t c idx) cs).
+    assert (HI3 : InvO own (loadpart_g RC0421 (tl_state s c) t c idx) cs).
     { apply (@load_phase_inv own (tl_state s c) cs t c idx (InvO_tl c HI) Hidx).
       intros x Hx Hne Hs.
       destruct (vv_lt (mo (tl_state s c) idx) (mo (tl_state s c) x)) eqn:Hlt; [|reflexivity].
@@ -1450,7 +1495,7 @@ Proof.
       destruct (Hall x H7 Hx Hne Hlt) as [Hns _].
       change (get_store (tl_state s c) x) with (get_store s x) in Hs. rewrite Hs in Hns. discriminate. }
     exists own.
-    assert (Hidx3 : idx < at_cnt (loadpart_g true (tl_state s c) t c idx)) by exact Hidx.
+    assert (Hidx3 : idx < at_cnt (loadpart_g RC0421 (tl_state s c) t c idx)) by exact Hidx.
     destruct (acq_clock o HI3 Ht Hidx3) as [H1 [_ [H3 H4]]].
     split; [apply (InvO_clock HI3 Ht H1 H3 H4)|].
     split; [apply (@load_phase_ext own (tl_state s c) cs t c idx (InvO_tl c HI) Hidx)|].
@@ -1480,13 +1525,13 @@ Proof.
     destruct He as [_ [Hidx Hall]].
     unfold atomic_rmw_g in Hstep.
     rewrite (track_load_ok' HI Ht (sf_le cs t : vle (clk cs t) c)) in Hstep. cbv zeta in Hstep.
-    assert (HI3 : InvO own (loadpart_g true (tl_state s c) t c idx) cs).
+    assert (HI3 : InvO own (loadpart_g RC0421 (tl_state s c) t c idx) cs).
     { apply (@load_phase_inv own (tl_state s c) cs t c idx (InvO_tl c HI) Hidx).
       intros x Hx Hne _.
       assert (H7 : x < MAX_ATOMIC_HISTORY) by (pose proof (i_cnt7 HI); change (at_cnt (tl_state s c)) with (at_cnt s) in Hx; lia).
       apply (Hall x H7 Hx Hne). }
     pose proof (@load_phase_ext own (tl_state s c) cs t c idx (InvO_tl c HI) Hidx) as Hext3.
-    set (s3 := loadpart_g true (tl_state s c) t c idx) in *.
+    set (s3 := loadpart_g RC0421 (tl_state s c) t c idx) in *.
     assert (Hidx3 : idx < at_cnt s3) by exact Hidx.
     destruct (f (st_value (get_store s3 idx))) as [next|].
     + rewrite (track_store_ok' HI3 Ht (sf_le cs t : vle (clk cs t) c)) in Hstep.
@@ -1531,20 +1576,20 @@ Proof.
     intros HS. apply (@stamp_clock s cs _ HS (@clk_set_grow cs t _ Ht (vle_join_l _ _))).
 Qed.
 
-Theorem mstep_inv : forall st t op st',
-  Inv st -> mstep true st t op = Some st' -> Inv st'.
+Theorem mstep_inv_c0421c4 : forall st t op st',
+  Inv st -> mstep RC0421 st t op = Some st' -> Inv st'.
 Proof.
   intros [s cs] t op [s' cs'] [own HI] Hstep. cbn [fst snd] in HI.
-  destruct (mstep_ext _ _ HI Hstep) as [own' [HI' _]]. exists own'. exact HI'.
+  destruct (mstep_ext_c0421c4 _ _ HI Hstep) as [own' [HI' _]]. exists own'. exact HI'.
 Qed.
 
-Theorem mrun_inv : forall evs st st',
-  Inv st -> mrun true st evs = Some st' -> Inv st'.
+Theorem mrun_inv_c0421c4 : forall evs st st',
+  Inv st -> mrun RC0421 st evs = Some st' -> Inv st'.
 Proof.
   induction evs as [|[t op] evs IH]; intros st st' HI Hrun.
   - cbn [mrun] in Hrun. inversion Hrun. subst st'. exact HI.
-  - cbn [mrun] in Hrun. destruct (mstep true st t op) as [st1|] eqn:Hs; [|discriminate].
-    apply (IH st1 st' (@mstep_inv st t op st1 HI Hs) Hrun).
+  - cbn [mrun] in Hrun. destruct (mstep RC0421 st t op) as [st1|] eqn:Hs; [|discriminate].
+    apply (IH st1 st' (@mstep_inv_c0421c4 st t op st1 HI Hs) Hrun).
 Qed.
 
 (* ================================================================== *)
@@ -1596,20 +1641,19 @@ Proof.
   - intros a b Ha Hb Hne. rewrite (H0 a Ha), (H0 b Hb) in Hne. lia.
 Qed.
 
-(* reachable states of the repaired machine *)
-Definition reach (st : mstate) : Prop :=
+(* reachable states of the c0421c4 machine *)
+Definition reach_c0421c4 (st : mstate) : Prop :=
   exists n v0 st0 evs, 1 <= n /\ n <= MAX_THREADS /\ minit n v0 = Some st0 /\
-                       mrun true st0 evs = Some st.
+                       mrun RC0421 st0 evs = Some st.
 
-Theorem reach_inv : forall st, reach st -> Inv st.
+Theorem reach_inv_c0421c4 : forall st, reach_c0421c4 st -> Inv st.
 Proof.
   intros st [n [v0 [st0 [evs [H1 [H5 [Hi Hr]]]]]]].
-  apply (@mrun_inv evs st0 st (@minit_inv n v0 st0 H1 H5 Hi) Hr).
+  apply (@mrun_inv_c0421c4 evs st0 st (@minit_inv n v0 st0 H1 H5 Hi) Hr).
 Qed.
 
 (* ================================================================== *)
-(* 10. theorems on the runs of the machine built from the MODEL's
-       functions (tr = true)                                            *)
+(* 10. theorems on the runs of the c0421c4 machine (tr = RC0421)         *)
 
 Definition lives (st : mstate) (a : nat) : Prop := a < at_cnt (fst st).
 (* loom's own notion: thread t has seen store i (it read or wrote it, or an
@@ -1618,7 +1662,7 @@ Definition knows (st : mstate) (t i : nat) : Prop :=
   is_seen_by_current (st_seen (get_store (fst st) i)) (clk (snd st) t) = true.
 
 (* ---- the assertion `mo_i != mo_j` never fires ---- *)
-Theorem mlts_never_none_inv : forall st t c ly o,
+Theorem mlts_never_none_inv_c0421c4 : forall st t c ly o,
   Inv st -> match_load_to_stores (fst st) t c ly o <> None.
 Proof.
   intros [s cs] t c ly o [own HI] Hn. cbn [fst snd] in *.
@@ -1626,31 +1670,31 @@ Proof.
   pose proof (live_mo_distinct HI Hi Hj Hne) as Hd. unfold mo in Hd. rewrite Hd in He. discriminate.
 Qed.
 
-Theorem mrts_never_none_inv : forall st, Inv st -> match_rmw_to_stores (fst st) <> None.
+Theorem mrts_never_none_inv_c0421c4 : forall st, Inv st -> match_rmw_to_stores (fst st) <> None.
 Proof.
   intros [s cs] [own HI] Hn. cbn [fst snd] in *.
   apply rmw_candidates_none in Hn. destruct Hn as [i [j [_ [Hi [_ [Hj [Hne He]]]]]]].
   pose proof (live_mo_distinct HI Hi Hj Hne) as Hd. unfold mo in Hd. rewrite Hd in He. discriminate.
 Qed.
 
-Theorem mlts_never_none : forall st, reach st ->
+Theorem mlts_never_none_c0421c4 : forall st, reach_c0421c4 st ->
   (forall t c ly o, match_load_to_stores (fst st) t c ly o <> None) /\
   match_rmw_to_stores (fst st) <> None.
 Proof.
-  intros st Hr. pose proof (reach_inv Hr) as HI. split.
-  - intros t c ly o. apply mlts_never_none_inv. exact HI.
-  - apply mrts_never_none_inv. exact HI.
+  intros st Hr. pose proof (reach_inv_c0421c4 Hr) as HI. split.
+  - intros t c ly o. apply mlts_never_none_inv_c0421c4. exact HI.
+  - apply mrts_never_none_inv_c0421c4. exact HI.
 Qed.
 
 (* ---- the strict order on live stores only grows; knowledge only grows ---- *)
-Theorem step_stable : forall st t op st' a b,
-  Inv st -> mstep true st t op = Some st' ->
+Theorem step_stable_c0421c4 : forall st t op st' a b,
+  Inv st -> mstep RC0421 st t op = Some st' ->
   lives st a -> lives st b -> mo_lt st a b = true ->
   lives st' a /\ lives st' b /\ mo_lt st' a b = true.
 Proof.
   intros [s cs] t op [s' cs'] a b [own HI] Hstep Ha Hb Hlt.
   unfold lives in *. cbn [fst snd] in *.
-  destruct (mstep_ext _ _ HI Hstep) as [own' [HI' [[Hc Hx] _]]].
+  destruct (mstep_ext_c0421c4 _ _ HI Hstep) as [own' [HI' [[Hc Hx] _]]].
   assert (Ha' : a < at_cnt s') by lia. assert (Hb' : b < at_cnt s') by lia.
   split; [exact Ha'|]. split; [exact Hb'|].
   change (vv_lt (mo s a) (mo s b) = true) in Hlt. change (vv_lt (mo s' a) (mo s' b) = true).
@@ -1660,72 +1704,72 @@ Proof.
   unfold K in *. rewrite Ho, Hh. specialize (Hg (own a)). lia.
 Qed.
 
-Theorem step_knows : forall st t op st' u i,
-  Inv st -> mstep true st t op = Some st' ->
+Theorem step_knows_c0421c4 : forall st t op st' u i,
+  Inv st -> mstep RC0421 st t op = Some st' ->
   lives st i -> knows st u i -> knows st' u i.
 Proof.
   intros [s cs] t op [s' cs'] u i [own HI] Hstep Hi Hk.
   unfold lives, knows in *. cbn [fst snd] in *.
-  destruct (mstep_ext _ _ HI Hstep) as [own' [_ [[_ Hx] [_ [Hg _]]]]].
+  destruct (mstep_ext_c0421c4 _ _ HI Hstep) as [own' [_ [[_ Hx] [_ [Hg _]]]]].
   destruct (Hx i Hi) as [_ [_ [_ Hs]]].
   apply (seen_clock_mono _ _ _ (Hg u)). apply Hs. exact Hk.
 Qed.
 
-Theorem run_stable : forall evs st st' a b,
-  Inv st -> mrun true st evs = Some st' ->
+Theorem run_stable_c0421c4 : forall evs st st' a b,
+  Inv st -> mrun RC0421 st evs = Some st' ->
   lives st a -> lives st b -> mo_lt st a b = true ->
   lives st' a /\ lives st' b /\ mo_lt st' a b = true.
 Proof.
   induction evs as [|[t op] evs IH]; intros st st' a b HI Hrun Ha Hb Hlt.
   - cbn [mrun] in Hrun. inversion Hrun. subst st'. repeat split; assumption.
-  - cbn [mrun] in Hrun. destruct (mstep true st t op) as [st1|] eqn:Hs; [|discriminate].
-    destruct (@step_stable st t op st1 a b HI Hs Ha Hb Hlt) as [Ha1 [Hb1 Hlt1]].
-    apply (IH st1 st' a b (@mstep_inv st t op st1 HI Hs) Hrun Ha1 Hb1 Hlt1).
+  - cbn [mrun] in Hrun. destruct (mstep RC0421 st t op) as [st1|] eqn:Hs; [|discriminate].
+    destruct (@step_stable_c0421c4 st t op st1 a b HI Hs Ha Hb Hlt) as [Ha1 [Hb1 Hlt1]].
+    apply (IH st1 st' a b (@mstep_inv_c0421c4 st t op st1 HI Hs) Hrun Ha1 Hb1 Hlt1).
 Qed.
 
-Theorem run_knows : forall evs st st' u i,
-  Inv st -> mrun true st evs = Some st' ->
+Theorem run_knows_c0421c4 : forall evs st st' u i,
+  Inv st -> mrun RC0421 st evs = Some st' ->
   lives st i -> knows st u i -> lives st' i /\ knows st' u i.
 Proof.
   induction evs as [|[t op] evs IH]; intros st st' u i HI Hrun Hi Hk.
   - cbn [mrun] in Hrun. inversion Hrun. subst st'. split; assumption.
-  - cbn [mrun] in Hrun. destruct (mstep true st t op) as [st1|] eqn:Hs; [|discriminate].
+  - cbn [mrun] in Hrun. destruct (mstep RC0421 st t op) as [st1|] eqn:Hs; [|discriminate].
     assert (Hi1 : lives st1 i).
     { destruct st as [s cs], st1 as [s1 cs1]. destruct HI as [own HI]. cbn [fst snd] in HI.
-      destruct (mstep_ext _ _ HI Hs) as [own' [_ [[Hc _] _]]]. unfold lives in *. cbn [fst] in *. lia. }
-    apply (IH st1 st' u i (@mstep_inv st t op st1 HI Hs) Hrun Hi1 (@step_knows st t op st1 u i HI Hs Hi Hk)).
+      destruct (mstep_ext_c0421c4 _ _ HI Hs) as [own' [_ [[Hc _] _]]]. unfold lives in *. cbn [fst] in *. lia. }
+    apply (IH st1 st' u i (@mstep_inv_c0421c4 st t op st1 HI Hs) Hrun Hi1 (@step_knows_c0421c4 st t op st1 u i HI Hs Hi Hk)).
 Qed.
 
 (* ---- CoRR / CoWR, happens-before version ----
    If at some point thread t knows store j (it read it, wrote it, or an access
    of it happens-before t) and i is mo-before j at that point, then after ANY
    further steps of any threads t can neither load nor RMW store i. *)
-Theorem CoRR_CoWR : forall st1 evs st2 t i j o,
+Theorem CoRR_CoWR_c0421c4 : forall st1 evs st2 t i j o,
   Inv st1 -> lives st1 i -> lives st1 j -> knows st1 t j -> mo_lt st1 i j = true ->
-  mrun true st1 evs = Some st2 ->
-  mstep true st2 t (XLoad i o) = None.
+  mrun RC0421 st1 evs = Some st2 ->
+  mstep RC0421 st2 t (XLoad i o) = None.
 Proof.
   intros st1 evs st2 t i j o HI Hi Hj Hk Hlt Hrun.
-  destruct (@run_stable evs st1 st2 i j HI Hrun Hi Hj Hlt) as [Hi2 [Hj2 Hlt2]].
-  destruct (@run_knows evs st1 st2 t j HI Hrun Hj Hk) as [_ Hk2].
+  destruct (@run_stable_c0421c4 evs st1 st2 i j HI Hrun Hi Hj Hlt) as [Hi2 [Hj2 Hlt2]].
+  destruct (@run_knows_c0421c4 evs st1 st2 t j HI Hrun Hj Hk) as [_ Hk2].
   destruct st2 as [s cs]. unfold lives, knows, mo_lt, mo_of in *. cbn [fst snd] in *.
   unfold mstep. destruct (negb (Nat.ltb t (length cs))); [reflexivity|].
   destruct (match_load_to_stores s t (vv_inc (clk cs t) t) None o) as [l|] eqn:Hm; [|reflexivity].
   destruct (existsb (Nat.eqb i) l) eqn:He; [|reflexivity].
   exfalso. apply existsb_eqb_In in He.
-  pose proof (@mrun_inv evs st1 _ HI Hrun) as [own HI2]. cbn [fst snd] in HI2.
+  pose proof (@mrun_inv_c0421c4 evs st1 _ HI Hrun) as [own HI2]. cbn [fst snd] in HI2.
   assert (Hj7 : j < MAX_ATOMIC_HISTORY) by (pose proof (i_cnt7 HI2); lia).
   apply (coherence_write_read _ _ _ _ _ _ _ _ Hm Hj7 Hj2 Hlt2); [|exact He].
   apply (seen_clock_mono _ _ _ (vle_inc (clk cs t) t) Hk2).
 Qed.
 
-Theorem CoRR_CoWR_rmw : forall st1 evs st2 t i j f so fo,
+Theorem CoRR_CoWR_rmw_c0421c4 : forall st1 evs st2 t i j f so fo,
   Inv st1 -> lives st1 i -> lives st1 j -> mo_lt st1 i j = true ->
-  mrun true st1 evs = Some st2 ->
-  mstep true st2 t (XRmw i f so fo) = None.
+  mrun RC0421 st1 evs = Some st2 ->
+  mstep RC0421 st2 t (XRmw i f so fo) = None.
 Proof.
   intros st1 evs st2 t i j f so fo HI Hi Hj Hlt Hrun.
-  destruct (@run_stable evs st1 st2 i j HI Hrun Hi Hj Hlt) as [Hi2 [Hj2 Hlt2]].
+  destruct (@run_stable_c0421c4 evs st1 st2 i j HI Hrun Hi Hj Hlt) as [Hi2 [Hj2 Hlt2]].
   destruct st2 as [s cs]. unfold lives, mo_lt, mo_of in *. cbn [fst snd] in *.
   unfold mstep. destruct (negb (Nat.ltb t (length cs))); [reflexivity|].
   destruct (Nat.leb MAX_ATOMIC_HISTORY (at_cnt s)); [reflexivity|].
@@ -1733,7 +1777,7 @@ Proof.
   destruct (existsb (Nat.eqb i) l) eqn:He; [|reflexivity].
   exfalso. apply existsb_eqb_In in He. apply (rmw_candidates_spec _ _ Hm i) in He.
   destruct He as [_ [_ Hall]].
-  pose proof (@mrun_inv evs st1 _ HI Hrun) as [own HI2]. cbn [fst snd] in HI2.
+  pose proof (@mrun_inv_c0421c4 evs st1 _ HI Hrun) as [own HI2]. cbn [fst snd] in HI2.
   assert (Hj7 : j < MAX_ATOMIC_HISTORY) by (pose proof (i_cnt7 HI2); lia).
   assert (Hne : j <> i) by (intros Heq; subst j; rewrite vv_lt_irrefl in Hlt2; discriminate).
   rewrite (Hall j Hj7 Hj2 Hne) in Hlt2. discriminate.
@@ -1741,10 +1785,10 @@ Qed.
 
 (* ---- CoWW / CoRW ----
    A new store is strictly mo-after every store its thread knows (has read,
-   has written, or that happens-before it); by [run_stable] it stays so. *)
-Theorem CoWW_CoRW : forall st t v o st' i,
+   has written, or that happens-before it); by [run_stable_c0421c4] it stays so. *)
+Theorem CoWW_CoRW_c0421c4 : forall st t v o st' i,
   Inv st -> lives st i -> knows st t i ->
-  mstep true st t (XStore v o) = Some st' ->
+  mstep RC0421 st t (XStore v o) = Some st' ->
   lives st' (at_cnt (fst st)) /\ mo_lt st' i (at_cnt (fst st)) = true.
 Proof.
   intros [s cs] t v o st' i [own HI] Hi Hk Hstep.
@@ -1764,8 +1808,8 @@ Proof.
 Qed.
 
 (* how a thread comes to know a store: its own store ... *)
-Theorem store_knows : forall st t v o st',
-  Inv st -> mstep true st t (XStore v o) = Some st' ->
+Theorem store_knows_c0421c4 : forall st t v o st',
+  Inv st -> mstep RC0421 st t (XStore v o) = Some st' ->
   lives st' (at_cnt (fst st)) /\ knows st' t (at_cnt (fst st)).
 Proof.
   intros [s cs] t v o st' [own HI] Hstep. unfold lives, knows. cbn [fst snd] in *.
@@ -1786,8 +1830,8 @@ Proof.
 Qed.
 
 (* ... and any synchronisation edge u -> t *)
-Theorem sync_knows : forall st t u st' i,
-  mstep true st t (XSync u) = Some st' -> knows st u i -> knows st' t i.
+Theorem sync_knows_c0421c4 : forall st t u st' i,
+  mstep RC0421 st t (XSync u) = Some st' -> knows st u i -> knows st' t i.
 Proof.
   intros [s cs] t u st' i Hstep Hk. unfold knows in *. cbn [fst snd] in *.
   unfold mstep in Hstep.
@@ -1802,21 +1846,21 @@ Qed.
    store known, so the same-thread versions need no [knows] hypothesis ---- *)
 Definition Inv2 (st : mstate) : Prop := Inv st /\ StampO (fst st) (snd st).
 
-Theorem mstep_inv2 : forall st t op st',
-  Inv2 st -> mstep true st t op = Some st' -> Inv2 st'.
+Theorem mstep_inv2_c0421c4 : forall st t op st',
+  Inv2 st -> mstep RC0421 st t op = Some st' -> Inv2 st'.
 Proof.
   intros [s cs] t op [s' cs'] [[own HI] HS] Hstep. cbn [fst snd] in *.
-  destruct (mstep_ext _ _ HI Hstep) as [own' [HI' [_ [_ [_ HS']]]]].
+  destruct (mstep_ext_c0421c4 _ _ HI Hstep) as [own' [HI' [_ [_ [_ HS']]]]].
   split; [exists own'; exact HI' | exact (HS' HS)].
 Qed.
 
-Theorem mrun_inv2 : forall evs st st',
-  Inv2 st -> mrun true st evs = Some st' -> Inv2 st'.
+Theorem mrun_inv2_c0421c4 : forall evs st st',
+  Inv2 st -> mrun RC0421 st evs = Some st' -> Inv2 st'.
 Proof.
   induction evs as [|[t op] evs IH]; intros st st' HI Hrun.
   - cbn [mrun] in Hrun. inversion Hrun. subst st'. exact HI.
-  - cbn [mrun] in Hrun. destruct (mstep true st t op) as [st1|] eqn:Hs; [|discriminate].
-    apply (IH st1 st' (@mstep_inv2 st t op st1 HI Hs) Hrun).
+  - cbn [mrun] in Hrun. destruct (mstep RC0421 st t op) as [st1|] eqn:Hs; [|discriminate].
+    apply (IH st1 st' (@mstep_inv2_c0421c4 st t op st1 HI Hs) Hrun).
 Qed.
 
 Theorem minit_inv2 : forall n v0 st,
@@ -1832,14 +1876,14 @@ Proof.
   - intros a Ha. cbn in Ha. assert (a = 0) by lia. subst a. reflexivity.
 Qed.
 
-Theorem reach_inv2 : forall st, reach st -> Inv2 st.
+Theorem reach_inv2_c0421c4 : forall st, reach_c0421c4 st -> Inv2 st.
 Proof.
   intros st [n [v0 [st0 [evs [H1 [H5 [Hi Hr]]]]]]].
-  apply (@mrun_inv2 evs st0 st (@minit_inv2 n v0 st0 H1 H5 Hi) Hr).
+  apply (@mrun_inv2_c0421c4 evs st0 st (@minit_inv2 n v0 st0 H1 H5 Hi) Hr).
 Qed.
 
-Theorem load_knows : forall st t i o st',
-  Inv2 st -> mstep true st t (XLoad i o) = Some st' -> lives st' i /\ knows st' t i.
+Theorem load_knows_c0421c4 : forall st t i o st',
+  Inv2 st -> mstep RC0421 st t (XLoad i o) = Some st' -> lives st' i /\ knows st' t i.
 Proof.
   intros [s cs] t i o st' [[own HI] HS] Hstep. unfold lives, knows. cbn [fst snd] in *.
   unfold mstep in Hstep.
@@ -1867,67 +1911,67 @@ Proof.
 Qed.
 
 (* CoRR, one thread's own two reads, any steps of any threads in between *)
-Theorem CoRR_same_thread : forall st0 t j o st1 evs st2 i o',
-  Inv2 st0 -> mstep true st0 t (XLoad j o) = Some st1 ->
+Theorem CoRR_same_thread_c0421c4 : forall st0 t j o st1 evs st2 i o',
+  Inv2 st0 -> mstep RC0421 st0 t (XLoad j o) = Some st1 ->
   lives st1 i -> mo_lt st1 i j = true ->
-  mrun true st1 evs = Some st2 ->
-  mstep true st2 t (XLoad i o') = None.
+  mrun RC0421 st1 evs = Some st2 ->
+  mstep RC0421 st2 t (XLoad i o') = None.
 Proof.
   intros st0 t j o st1 evs st2 i o' HI Hs Hi Hlt Hrun.
-  destruct (@load_knows st0 t j o st1 HI Hs) as [Hj Hk].
-  destruct (@mstep_inv2 st0 t (XLoad j o) st1 HI Hs) as [HI1 _].
-  apply (@CoRR_CoWR st1 evs st2 t i j o' HI1 Hi Hj Hk Hlt Hrun).
+  destruct (@load_knows_c0421c4 st0 t j o st1 HI Hs) as [Hj Hk].
+  destruct (@mstep_inv2_c0421c4 st0 t (XLoad j o) st1 HI Hs) as [HI1 _].
+  apply (@CoRR_CoWR_c0421c4 st1 evs st2 t i j o' HI1 Hi Hj Hk Hlt Hrun).
 Qed.
 
 (* CoWR: a thread never reads a store that was mo-before its own earlier store *)
-Theorem CoWR_same_thread : forall st0 t v o st1 evs st2 i o',
-  Inv st0 -> mstep true st0 t (XStore v o) = Some st1 ->
+Theorem CoWR_same_thread_c0421c4 : forall st0 t v o st1 evs st2 i o',
+  Inv st0 -> mstep RC0421 st0 t (XStore v o) = Some st1 ->
   lives st1 i -> mo_lt st1 i (at_cnt (fst st0)) = true ->
-  mrun true st1 evs = Some st2 ->
-  mstep true st2 t (XLoad i o') = None.
+  mrun RC0421 st1 evs = Some st2 ->
+  mstep RC0421 st2 t (XLoad i o') = None.
 Proof.
   intros st0 t v o st1 evs st2 i o' HI Hs Hi Hlt Hrun.
-  destruct (@store_knows st0 t v o st1 HI Hs) as [Hj Hk].
-  pose proof (@mstep_inv st0 t (XStore v o) st1 HI Hs) as HI1.
-  apply (@CoRR_CoWR st1 evs st2 t i (at_cnt (fst st0)) o' HI1 Hi Hj Hk Hlt Hrun).
+  destruct (@store_knows_c0421c4 st0 t v o st1 HI Hs) as [Hj Hk].
+  pose proof (@mstep_inv_c0421c4 st0 t (XStore v o) st1 HI Hs) as HI1.
+  apply (@CoRR_CoWR_c0421c4 st1 evs st2 t i (at_cnt (fst st0)) o' HI1 Hi Hj Hk Hlt Hrun).
 Qed.
 
 (* CoRW: a thread's store is mo-after every store it has read before *)
-Theorem CoRW_same_thread : forall st0 t j o st1 evs st2 v o' st3,
-  Inv2 st0 -> mstep true st0 t (XLoad j o) = Some st1 ->
-  mrun true st1 evs = Some st2 ->
-  mstep true st2 t (XStore v o') = Some st3 ->
+Theorem CoRW_same_thread_c0421c4 : forall st0 t j o st1 evs st2 v o' st3,
+  Inv2 st0 -> mstep RC0421 st0 t (XLoad j o) = Some st1 ->
+  mrun RC0421 st1 evs = Some st2 ->
+  mstep RC0421 st2 t (XStore v o') = Some st3 ->
   mo_lt st3 j (at_cnt (fst st2)) = true.
 Proof.
   intros st0 t j o st1 evs st2 v o' st3 HI Hs Hrun Hs3.
-  destruct (@load_knows st0 t j o st1 HI Hs) as [Hj Hk].
-  destruct (@mstep_inv2 st0 t (XLoad j o) st1 HI Hs) as [HI1 _].
-  destruct (@run_knows evs st1 st2 t j HI1 Hrun Hj Hk) as [Hj2 Hk2].
-  pose proof (@mrun_inv evs st1 st2 HI1 Hrun) as HI2.
-  apply (@CoWW_CoRW st2 t v o' st3 j HI2 Hj2 Hk2 Hs3).
+  destruct (@load_knows_c0421c4 st0 t j o st1 HI Hs) as [Hj Hk].
+  destruct (@mstep_inv2_c0421c4 st0 t (XLoad j o) st1 HI Hs) as [HI1 _].
+  destruct (@run_knows_c0421c4 evs st1 st2 t j HI1 Hrun Hj Hk) as [Hj2 Hk2].
+  pose proof (@mrun_inv_c0421c4 evs st1 st2 HI1 Hrun) as HI2.
+  apply (@CoWW_CoRW_c0421c4 st2 t v o' st3 j HI2 Hj2 Hk2 Hs3).
 Qed.
 
 (* CoWW: a thread's later store is mo-after its earlier store *)
-Theorem CoWW_same_thread : forall st0 t v o st1 evs st2 v' o' st3,
-  Inv st0 -> mstep true st0 t (XStore v o) = Some st1 ->
-  mrun true st1 evs = Some st2 ->
-  mstep true st2 t (XStore v' o') = Some st3 ->
+Theorem CoWW_same_thread_c0421c4 : forall st0 t v o st1 evs st2 v' o' st3,
+  Inv st0 -> mstep RC0421 st0 t (XStore v o) = Some st1 ->
+  mrun RC0421 st1 evs = Some st2 ->
+  mstep RC0421 st2 t (XStore v' o') = Some st3 ->
   mo_lt st3 (at_cnt (fst st0)) (at_cnt (fst st2)) = true.
 Proof.
   intros st0 t v o st1 evs st2 v' o' st3 HI Hs Hrun Hs3.
-  destruct (@store_knows st0 t v o st1 HI Hs) as [Hj Hk].
-  pose proof (@mstep_inv st0 t (XStore v o) st1 HI Hs) as HI1.
-  destruct (@run_knows evs st1 st2 t (at_cnt (fst st0)) HI1 Hrun Hj Hk) as [Hj2 Hk2].
-  pose proof (@mrun_inv evs st1 st2 HI1 Hrun) as HI2.
-  apply (@CoWW_CoRW st2 t v' o' st3 (at_cnt (fst st0)) HI2 Hj2 Hk2 Hs3).
+  destruct (@store_knows_c0421c4 st0 t v o st1 HI Hs) as [Hj Hk].
+  pose proof (@mstep_inv_c0421c4 st0 t (XStore v o) st1 HI Hs) as HI1.
+  destruct (@run_knows_c0421c4 evs st1 st2 t (at_cnt (fst st0)) HI1 Hrun Hj Hk) as [Hj2 Hk2].
+  pose proof (@mrun_inv_c0421c4 evs st1 st2 HI1 Hrun) as HI2.
+  apply (@CoWW_CoRW_c0421c4 st2 t v' o' st3 (at_cnt (fst st0)) HI2 Hj2 Hk2 Hs3).
 Qed.
 
 
 (* ================================================================== *)
-(* 11. the HISTORICAL rule (tr = false, apply_load_coherence before fix
+(* 11. the HISTORICAL rule (tr = RBefore, apply_load_coherence before fix
        c0421c4): coherence was false                                    *)
 
-Definition ok_step (tr : bool) (st : option mstate) (t : nat) (op : aop) : bool :=
+Definition ok_step (tr : rule) (st : option mstate) (t : nat) (op : aop) : bool :=
   match st with Some s => is_some (mstep tr s t op) | None => false end.
 Definition lt_in (st : option mstate) (i j : nat) : bool :=
   match st with Some s => mo_lt s i j | None => false end.
@@ -1947,27 +1991,27 @@ Definition cex_pre : list (nat * aop) :=
 Definition cex : list (nat * aop) := cex_pre ++ [(0, XLoad 1 Relaxed)].
 
 Lemma coherence_counterexample_before_fix :
-  lt_in (mrun0 false 2 cex_pre) 1 2 = true /\          (* 20 <mo 30 *)
-  knows_b (mrun0 false 2 cex_pre) 1 2 = true /\        (* T1 knows 30 *)
-  ok_step false (mrun0 false 2 cex_pre) 1 (XLoad 1 Relaxed) = false /\ (* T1 may not read 20 *)
-  lt_in (mrun0 false 2 cex) 1 2 = false /\             (* after T0's load the edge is gone *)
-  ok_step false (mrun0 false 2 cex) 1 (XLoad 1 Relaxed) = true /\     (* T1 reads 20 *)
-  cands false (mrun0 false 2 cex) 1 Relaxed = Some [1; 2].
+  lt_in (mrun0 RBefore 2 cex_pre) 1 2 = true /\          (* 20 <mo 30 *)
+  knows_b (mrun0 RBefore 2 cex_pre) 1 2 = true /\        (* T1 knows 30 *)
+  ok_step RBefore (mrun0 RBefore 2 cex_pre) 1 (XLoad 1 Relaxed) = false /\ (* T1 may not read 20 *)
+  lt_in (mrun0 RBefore 2 cex) 1 2 = false /\             (* after T0's load the edge is gone *)
+  ok_step RBefore (mrun0 RBefore 2 cex) 1 (XLoad 1 Relaxed) = true /\     (* T1 reads 20 *)
+  cands RBefore (mrun0 RBefore 2 cex) 1 Relaxed = Some [1; 2].
 Proof. vm_compute. repeat split; reflexivity. Qed.
 
-(* the repaired load keeps the edge and T1 can only read 30 *)
+(* the c0421c4 rule keeps the edge and T1 can only read 30 *)
 Lemma coherence_counterexample_repaired :
-  lt_in (mrun0 true 2 cex) 1 2 = true /\
-  ok_step true (mrun0 true 2 cex) 1 (XLoad 1 Relaxed) = false /\
-  cands true (mrun0 true 2 cex) 1 Relaxed = Some [2].
+  lt_in (mrun0 RC0421 2 cex) 1 2 = true /\
+  ok_step RC0421 (mrun0 RC0421 2 cex) 1 (XLoad 1 Relaxed) = false /\
+  cands RC0421 (mrun0 RC0421 2 cex) 1 Relaxed = Some [2].
 Proof. vm_compute. repeat split; reflexivity. Qed.
 
 (* CoRR: T2 READS 30 (slot 2) and later reads 20 (slot 1) *)
 Lemma corr_counterexample_before_fix :
   let pre := [(1, XStore 20 Relaxed); (1, XStore 30 Relaxed); (2, XLoad 2 Relaxed); (0, XStore 40 Relaxed)] in
-  ok_step false (mrun0 false 3 pre) 2 (XLoad 1 Relaxed) = false /\
-  ok_step false (mrun0 false 3 (pre ++ [(0, XLoad 1 Relaxed)])) 2 (XLoad 1 Relaxed) = true /\
-  ok_step true (mrun0 true 3 (pre ++ [(0, XLoad 1 Relaxed)])) 2 (XLoad 1 Relaxed) = false.
+  ok_step RBefore (mrun0 RBefore 3 pre) 2 (XLoad 1 Relaxed) = false /\
+  ok_step RBefore (mrun0 RBefore 3 (pre ++ [(0, XLoad 1 Relaxed)])) 2 (XLoad 1 Relaxed) = true /\
+  ok_step RC0421 (mrun0 RC0421 3 (pre ++ [(0, XLoad 1 Relaxed)])) 2 (XLoad 1 Relaxed) = false.
 Proof. vm_compute. repeat split; reflexivity. Qed.
 
 (* loom's `assert_ne!(mo_i, mo_j)` ("TODO: this sometimes fails") does fire:
@@ -1979,10 +2023,10 @@ Definition cex_ne : list (nat * aop) :=
    (0, XLoad 3 Relaxed); (0, XLoad 1 Relaxed); (2, XLoad 2 Relaxed)].
 
 Lemma assert_ne_counterexample_before_fix :
-  is_some (mrun0 false 4 cex_ne) = true /\
-  cands false (mrun0 false 4 cex_ne) 0 Relaxed = None /\
-  rcands (mrun0 false 4 cex_ne) = None /\
-  mrun0 true 4 cex_ne = None.            (* the repaired machine refuses the run *)
+  is_some (mrun0 RBefore 4 cex_ne) = true /\
+  cands RBefore (mrun0 RBefore 4 cex_ne) 0 Relaxed = None /\
+  rcands (mrun0 RBefore 4 cex_ne) = None /\
+  mrun0 RC0421 4 cex_ne = None.            (* the c0421c4 machine refuses the run *)
 Proof. vm_compute. repeat split; reflexivity. Qed.
 
 (* two RMWs read the same store (lost update, observed on the real loom):
@@ -1993,67 +2037,365 @@ Definition cex_rmw : list (nat * aop) :=
    (3, XLoad 1 Relaxed); (3, XLoad 2 Relaxed)].
 
 Lemma rmw_counterexample_before_fix :
-  rcands (mrun0 false 4 (firstn 3 cex_rmw)) = Some [1; 3] /\
-  rcands (mrun0 false 4 cex_rmw) = Some [2; 3] /\
-  ok_step false (mrun0 false 4 cex_rmw) 3 (XRmw 2 inc1 Relaxed Relaxed) = true /\
-  rcands (mrun0 true 4 cex_rmw) = Some [3].
+  rcands (mrun0 RBefore 4 (firstn 3 cex_rmw)) = Some [1; 3] /\
+  rcands (mrun0 RBefore 4 cex_rmw) = Some [2; 3] /\
+  ok_step RBefore (mrun0 RBefore 4 cex_rmw) 3 (XRmw 2 inc1 Relaxed Relaxed) = true /\
+  rcands (mrun0 RC0421 4 cex_rmw) = Some [3].
 Proof. vm_compute. repeat split; reflexivity. Qed.
 
 (* ---- sanity search: all sequences of stores, loads and RMWs of 4 threads,
-   2 steps after the prefix; the unrepaired machine loses an edge, the
-   repaired one keeps all edges and never has two equal live clocks ---- *)
-Example search_before_fix : search0 false 4 pre3 2 = Some [(0, 0, 0); (0, 1, 2)].
+   2 steps after the prefix; the historical rule loses an edge, the
+   c0421c4 rule keeps all edges and never has two equal live clocks ---- *)
+Example search_before_fix : search0 RBefore 4 pre3 2 = Some [(0, 0, 0); (0, 1, 2)].
 Proof. vm_compute. reflexivity. Qed.
-Example search_repaired : search0 true 4 pre3 2 = None.
+Example search_repaired : search0 RC0421 4 pre3 2 = None.
 Proof. vm_compute. reflexivity. Qed.
 
-(* ---- non-vacuity (repaired machine, 3 threads): T1 stores 20 (slot 1) and
+(* ---- non-vacuity (c0421c4 machine, 3 threads): T1 stores 20 (slot 1) and
    synchronises with T2; a stale read of the initial store is forbidden for
    T2 and still allowed for T0 ---- *)
 Example stale_read_example :
   let evs := [(1, XStore 20 Relaxed); (2, XSync 1)] in
-  cands true (mrun0 true 3 evs) 2 Relaxed = Some [1] /\
-  cands true (mrun0 true 3 evs) 0 Relaxed = Some [0; 1] /\
-  knows_b (mrun0 true 3 evs) 2 1 = true /\ knows_b (mrun0 true 3 evs) 0 1 = false.
+  cands RC0421 (mrun0 RC0421 3 evs) 2 Relaxed = Some [1] /\
+  cands RC0421 (mrun0 RC0421 3 evs) 0 Relaxed = Some [0; 1] /\
+  knows_b (mrun0 RC0421 3 evs) 2 1 = true /\ knows_b (mrun0 RC0421 3 evs) 0 1 = false.
 Proof. vm_compute. repeat split; reflexivity. Qed.
 
-(* remaining gap (the model, tr = true; also the historical rule): loads can place a store mo-between an RMW's
+(* the gap of the c0421c4 rule (D19; also of the historical rule): loads can place a store mo-between an RMW's
    source and the RMW's write.  Slots: 1 = 10 (T1), 2 = 20 (T2), 3 = 21 (T2's
    fetch_add of 20).  T3 reads 20 then 10 (20 <mo 10); T0 reads 10 then 21
    (10 <mo 21). *)
-Example rmw_gap_example :
+Example rmw_gap_before_fix :
   let evs := [(1, XStore 10 Relaxed); (2, XStore 20 Relaxed); (2, XRmw 2 inc1 Relaxed Relaxed);
               (3, XLoad 2 Relaxed); (3, XLoad 1 Relaxed);
               (0, XLoad 1 Relaxed); (0, XLoad 3 Relaxed)] in
-  lt_in (mrun0 true 4 evs) 2 1 = true /\ lt_in (mrun0 true 4 evs) 1 3 = true.
+  lt_in (mrun0 RC0421 4 evs) 2 1 = true /\ lt_in (mrun0 RC0421 4 evs) 1 3 = true.
 Proof. vm_compute. repeat split; reflexivity. Qed.
 
-Print Assumptions mstep_ext.
-Print Assumptions mstep_inv.
+(* ================================================================== *)
+(* 12. the MODEL's current functions (tr = RModel: c0421c4 rule followed by
+       close_rmw_atomicity, the D19 fix)                                *)
+
+(* ---- computed facts ---- *)
+Definition gp : list (nat * aop) :=
+  [(1, XStore 10 Relaxed); (2, XStore 20 Relaxed); (2, XRmw 2 inc1 Relaxed Relaxed)].
+(* order A: T3 reads 20 then 10, T0 reads 10 and then wants 21 *)
+Definition gapA := gp ++ [(3, XLoad 2 Relaxed); (3, XLoad 1 Relaxed); (0, XLoad 1 Relaxed)].
+(* order B: T0 reads 10 then 21, T3 reads 20 and then wants 10 *)
+Definition gapB := gp ++ [(0, XLoad 1 Relaxed); (0, XLoad 3 Relaxed); (3, XLoad 2 Relaxed)].
+
+Lemma rmw_gap_refused :
+  is_some (mrun0 RModel 4 gapA) = true /\
+  ok_step RModel (mrun0 RModel 4 gapA) 0 (XLoad 3 Relaxed) = false /\
+  lt_in (mrun0 RModel 4 gapA) 3 1 = true /\         (* I1 put 10 after 21 *)
+  is_some (mrun0 RModel 4 gapB) = true /\
+  ok_step RModel (mrun0 RModel 4 gapB) 3 (XLoad 1 Relaxed) = false /\
+  lt_in (mrun0 RModel 4 gapB) 1 2 = true /\         (* I2 put 10 before 20 *)
+  (* the c0421c4 rule accepts both *)
+  ok_step RC0421 (mrun0 RC0421 4 gapA) 0 (XLoad 3 Relaxed) = true /\
+  ok_step RC0421 (mrun0 RC0421 4 gapB) 3 (XLoad 1 Relaxed) = true.
+Proof. vm_compute. repeat split; reflexivity. Qed.
+
+(* the older counterexamples are refused by the model as well *)
+Lemma model_refuses_old_counterexamples :
+  ok_step RModel (mrun0 RModel 2 cex) 1 (XLoad 1 Relaxed) = false /\
+  mrun0 RModel 4 cex_ne = None /\
+  rcands (mrun0 RModel 4 cex_rmw) = Some [3].
+Proof. vm_compute. repeat split; reflexivity. Qed.
+
+(* ---- search with the full checker: 1 = a vv_lt edge between live stores is
+   lost, 2 = two live stores have equal clocks, 3 = RMW atomicity is violated
+   (an RMW store not after its live source, or a live store strictly
+   mo-between them), 4 = the state is not closed under close_step ---- *)
+Definition src_of (s : atomic_state) (r : nat) : option nat :=
+  match st_rmw_src (get_store s r) with
+  | Some (slot, sid) =>
+      if Nat.ltb slot (at_cnt s) && negb (Nat.eqb slot r) && Nat.eqb (st_id (get_store s slot)) sid
+      then Some slot else None
+  | None => None
+  end.
+
+Definition atom_viol (s : atomic_state) : bool :=
+  existsb (fun r => match src_of s r with
+                    | None => false
+                    | Some sr =>
+                        negb (vv_lt (mo s sr) (mo s r)) ||
+                        existsb (fun x => vv_lt (mo s sr) (mo s x) && vv_lt (mo s x) (mo s r))
+                                (seq 0 (at_cnt s))
+                    end) (seq 0 (at_cnt s)).
+
+Definition closed_b (s : atomic_state) : bool :=
+  let live := Nat.min (at_cnt s) MAX_ATOMIC_HISTORY in
+  negb (snd (fold_left close_step (list_prod (seq 0 live) (seq 0 live)) (at_stores s, false))).
+
+Definition step_chk (st st' : mstate) : nat :=
+  if negb (forallb (fun p => let '(i, j) := p in
+             implb (mo_lt st i j) (mo_lt st' i j)) (live_pairs (fst st))) then 1
+  else if negb (forallb (fun p => let '(i, j) := p in
+             Nat.eqb i j || negb (vv_eqb (mo_of st' i) (mo_of st' j))) (live_pairs (fst st'))) then 2
+  else if atom_viol (fst st') then 3
+  else if negb (closed_b (fst st')) then 4 else 0.
+
+Fixpoint search_m (tr : rule) (n : nat) (fuel : nat) (st : mstate) (trace : list (nat * nat * nat))
+  : option (nat * list (nat * nat * nat)) :=
+  match fuel with
+  | 0 => None
+  | S f =>
+      first_some
+        (fun m => let '(t, op) := m in
+           let code := match op with XStore _ _ => (t, 0, 0) | XLoad k _ => (t, 1, k)
+                                | XRmw k _ _ _ => (t, 2, k) | XSync u => (t, 3, u) end in
+           match mstep tr st t op with
+           | None => None
+           | Some st' => match step_chk st st' with
+                         | 0 => search_m tr n f st' (code :: trace)
+                         | e => Some (e, rev (code :: trace))
+                         end
+           end)
+        (moves n)
+  end.
+Definition search_m0 tr n pre fuel :=
+  match mrun0 tr n pre with Some st => search_m tr n fuel st [] | None => Some (99, []) end.
+
+(* all stores, loads and RMWs of 4 threads, 3 steps after the prefix (and of
+   3 threads, 4 steps): the model keeps every edge, never has equal clocks,
+   keeps RMW atomicity and is closed after every step (also after stores,
+   which do not run the closure); under the c0421c4 rule the search first meets
+   a state that is not closed (atomicity itself is violated in
+   [rmw_gap_before_fix]) *)
+Example search_closure_clean :
+  search_m0 RModel 4 gp 3 = None /\ search_m0 RModel 3 gp 4 = None.
+Proof. vm_compute. split; reflexivity. Qed.
+Example search_closure_c0421c4 :
+  search_m0 RC0421 4 gp 4 = Some (4, [(0, 0, 0); (0, 0, 0); (0, 0, 0); (0, 1, 3)]).
+Proof. vm_compute. reflexivity. Qed.
+
+(* ---- proved for the model's functions: on RMW-free runs the closure is the
+   identity, the model's machine IS the c0421c4 machine, and every theorem of
+   sections 8-10 holds for Atomic.atomic_load / atomic_store ---- *)
+Definition no_src (stores : list astore) : Prop :=
+  forall x, In x stores -> st_rmw_src x = None.
+
+Lemma no_src_nth : forall stores r, no_src stores ->
+  st_rmw_src (nth r stores store_default) = None.
+Proof.
+  intros stores r Hn. destruct (nth_in_or_default r stores store_default) as [Hin|Hd].
+  - apply Hn. exact Hin.
+  - rewrite Hd. reflexivity.
+Qed.
+
+Lemma close_step_no_src : forall stores ch ri, no_src stores ->
+  close_step (stores, ch) ri = (stores, ch).
+Proof.
+  intros stores ch [r i] Hn. unfold close_step. rewrite (no_src_nth r Hn). reflexivity.
+Qed.
+
+Lemma close_fold_no_src : forall l stores ch, no_src stores ->
+  fold_left close_step l (stores, ch) = (stores, ch).
+Proof.
+  induction l as [|ri l IH]; intros stores ch Hn; [reflexivity|].
+  cbn [fold_left]. rewrite (close_step_no_src ch ri Hn). apply IH. exact Hn.
+Qed.
+
+Lemma close_no_src : forall fuel live stores, no_src stores ->
+  close_rmw_atomicity fuel live stores = stores.
+Proof.
+  intros fuel live stores Hn. destruct fuel as [|f]; [reflexivity|].
+  cbn [close_rmw_atomicity]. rewrite (close_fold_no_src _ false Hn). reflexivity.
+Qed.
+
+Lemma list_set_In : forall (A : Type) (l : list A) n y x,
+  In x (list_set l n y) -> x = y \/ In x l.
+Proof.
+  intros A. induction l as [|h r IH]; intros n y x Hin; [contradiction|].
+  destruct n as [|n]; cbn [list_set] in Hin.
+  - destruct Hin as [H|H]; [left; symmetry; exact H | right; right; exact H].
+  - destruct Hin as [H|H]; [right; left; exact H|].
+    destruct (IH n y x H) as [H1|H1]; [left; exact H1 | right; right; exact H1].
+Qed.
+
+Lemma list_upd_In : forall (A : Type) (l : list A) n f x,
+  In x (list_upd l n f) -> In x l \/ exists y, In y l /\ x = f y.
+Proof.
+  intros A l n f x Hin. unfold list_upd in Hin.
+  destruct (nth_error l n) as [y|] eqn:Hn; [|left; exact Hin].
+  apply list_set_In in Hin. destruct Hin as [H|H]; [|left; exact H].
+  right. exists y. split; [apply (nth_error_In l n Hn) | exact H].
+Qed.
+
+Lemma mapi_from_In : forall (A B : Type) (g : nat -> A -> B) (l : list A) i x,
+  In x (mapi_from i g l) -> exists k y, In y l /\ x = g k y.
+Proof.
+  intros A B g l. induction l as [|h r IH]; intros i x Hin; [contradiction|].
+  cbn [mapi_from] in Hin. destruct Hin as [H|H].
+  - exists i, h. split; [left; reflexivity | symmetry; exact H].
+  - destruct (IH (S i) x H) as [k [y [Hy Hx]]]. exists k, y. split; [right; exact Hy | exact Hx].
+Qed.
+
+Lemma no_src_upd : forall stores n f,
+  (forall y, st_rmw_src (f y) = st_rmw_src y) -> no_src stores -> no_src (list_upd stores n f).
+Proof.
+  intros stores n f Hf Hn x Hin. apply list_upd_In in Hin.
+  destruct Hin as [H|[y [Hy Hx]]]; [apply Hn; exact H|].
+  subst x. rewrite Hf. apply Hn. exact Hy.
+Qed.
+
+Lemma no_src_mapi : forall stores g,
+  (forall k y, st_rmw_src (g k y) = st_rmw_src y) -> no_src stores -> no_src (mapi g stores).
+Proof.
+  intros stores g Hg Hn x Hin. unfold mapi in Hin. apply mapi_from_In in Hin.
+  destruct Hin as [k [y [Hy Hx]]]. subst x. rewrite Hg. apply Hn. exact Hy.
+Qed.
+
+Lemma no_src_c0421c4 : forall s c idx,
+  no_src (at_stores s) -> no_src (at_stores (alc_c0421c4 s c idx)).
+Proof.
+  intros s c idx Hn. rewrite alc_eq. cbn [at_stores at_set_stores].
+  assert (H1 : no_src (list_upd (at_stores s) idx (fun x => st_set_mo x (alc_mo s c idx)))).
+  { apply no_src_upd; [intros y; reflexivity | exact Hn]. }
+  destruct (vv_eqb (alc_mo s c idx) (st_mo (get_store s idx))); [exact H1|].
+  apply no_src_mapi; [|exact H1].
+  intros k y. destruct (negb (Nat.eqb idx k) && vv_lt (st_mo (get_store s idx)) (st_mo y)); reflexivity.
+Qed.
+
+Lemma model_alc_no_src : forall s c idx,
+  no_src (at_stores s) -> apply_load_coherence s c idx = alc_c0421c4 s c idx.
+Proof.
+  intros s c idx Hn. rewrite model_alc_eq.
+  rewrite (close_no_src _ _ (@no_src_c0421c4 s c idx Hn)). reflexivity.
+Qed.
+
+Lemma track_load_stores : forall s c s1, track_load s c = inl s1 -> at_stores s1 = at_stores s.
+Proof.
+  intros s c s1 H. unfold track_load in H. destruct (at_mutating s); [discriminate|].
+  destruct (vv_ahead c (at_unsync_mut s)); [discriminate|]. inversion H. reflexivity.
+Qed.
+
+Lemma track_store_stores : forall s c s1, track_store s c = inl s1 -> at_stores s1 = at_stores s.
+Proof.
+  intros s c s1 H. unfold track_store in H. destruct (at_mutating s); [discriminate|].
+  destruct (vv_ahead c (at_unsync_mut s)); [discriminate|].
+  destruct (vv_ahead c (at_unsync_loaded s)); [discriminate|]. inversion H. reflexivity.
+Qed.
+
+Definition rmw_free_op (op : aop) : Prop :=
+  match op with XRmw _ _ _ _ => False | _ => True end.
+
+Lemma mstep_model_eq : forall st t op,
+  no_src (at_stores (fst st)) -> rmw_free_op op ->
+  mstep RModel st t op = mstep RC0421 st t op /\
+  forall st', mstep RC0421 st t op = Some st' -> no_src (at_stores (fst st')).
+Proof.
+  intros [s cs] t op Hn Hop. cbn [fst] in Hn.
+  destruct op as [idx o|v o|idx f so fo|u]; [| | contradiction |].
+  - (* load *)
+    unfold mstep. destruct (negb (Nat.ltb t (length cs))); [split; [reflexivity | discriminate]|].
+    destruct (match_load_to_stores s t (vv_inc (clk cs t) t) None o) as [l|];
+      [|split; [reflexivity | discriminate]].
+    destruct (existsb (Nat.eqb idx) l); [|split; [reflexivity | discriminate]].
+    unfold atomic_load_g.
+    destruct (track_load s (vv_inc (clk cs t) t)) as [s1|p] eqn:Htl; [|split; [reflexivity | discriminate]].
+    assert (Hn1 : no_src (at_stores s1)) by (rewrite (track_load_stores _ _ Htl); exact Hn).
+    assert (Heq : loadpart_g RModel s1 t (vv_inc (clk cs t) t) idx =
+                  loadpart_g RC0421 s1 t (vv_inc (clk cs t) t) idx).
+    { unfold loadpart_g, alc_g. rewrite (@model_alc_no_src s1 (vv_inc (clk cs t) t) idx Hn1). reflexivity. }
+    cbv zeta. rewrite Heq. split; [reflexivity|].
+    intros st' H. inversion H as [Hst]. cbn [fst].
+    unfold loadpart_g, alc_g. cbn [at_stores at_set_stores].
+    apply no_src_upd; [intros y; reflexivity|]. apply no_src_c0421c4. exact Hn1.
+  - (* store *)
+    split; [reflexivity|]. intros st' H. unfold mstep in H.
+    destruct (negb (Nat.ltb t (length cs))); [discriminate|].
+    destruct (Nat.leb MAX_ATOMIC_HISTORY (at_cnt s)); [discriminate|].
+    destruct (track_store s (vv_inc (clk cs t) t)) as [s1|p] eqn:Hts; [|discriminate].
+    inversion H as [Hst]. cbn [fst]. unfold atomic_store, atomic_store_from. cbv zeta.
+    cbn [at_stores at_set_stores]. intros x Hin. apply list_set_In in Hin.
+    destruct Hin as [Hx|Hx]; [subst x; reflexivity|].
+    rewrite (track_store_stores _ _ Hts) in Hx. apply Hn. exact Hx.
+  - (* sync *)
+    split; [reflexivity|]. intros st' H. unfold mstep in H.
+    destruct (negb (Nat.ltb t (length cs))); [discriminate|].
+    destruct (Nat.ltb u (length cs)); [|discriminate]. inversion H. exact Hn.
+Qed.
+
+Definition rmw_free (evs : list (nat * aop)) : Prop :=
+  forall e, In e evs -> rmw_free_op (snd e).
+
+Theorem mrun_model_eq : forall evs st,
+  no_src (at_stores (fst st)) -> rmw_free evs ->
+  mrun RModel st evs = mrun RC0421 st evs.
+Proof.
+  induction evs as [|[t op] evs IH]; intros st Hn Hf; [reflexivity|].
+  cbn [mrun].
+  destruct (@mstep_model_eq st t op Hn (Hf (t, op) (or_introl eq_refl))) as [He Hp].
+  rewrite He. destruct (mstep RC0421 st t op) as [st1|] eqn:Hs; [|reflexivity].
+  apply IH; [apply (Hp st1 eq_refl) | intros e He'; apply Hf; right; exact He'].
+Qed.
+
+Lemma minit_no_src : forall n v0 st, minit n v0 = Some st -> no_src (at_stores (fst st)).
+Proof.
+  intros n v0 st Hm. rewrite minit_eq in Hm. inversion Hm as [Hst]. cbn [fst s_init at_stores].
+  intros x [Hx|Hx]; [subst x; reflexivity|]. apply repeat_spec in Hx. subst x. reflexivity.
+Qed.
+
+(* states the MODEL's machine reaches by RMW-free runs *)
+Definition reach_model_rmw_free (st : mstate) : Prop :=
+  exists n v0 st0 evs, 1 <= n /\ n <= MAX_THREADS /\ minit n v0 = Some st0 /\
+                       rmw_free evs /\ mrun RModel st0 evs = Some st.
+
+Theorem reach_model_rmw_free_c0421c4 : forall st,
+  reach_model_rmw_free st -> reach_c0421c4 st.
+Proof.
+  intros st [n [v0 [st0 [evs [H1 [H5 [Hi [Hf Hr]]]]]]]].
+  exists n, v0, st0, evs. repeat split; try assumption.
+  rewrite <- (@mrun_model_eq evs st0 (@minit_no_src n v0 st0 Hi) Hf). exact Hr.
+Qed.
+
+(* e.g.: along RMW-free runs of the model's functions the invariants hold and
+   assert_ne! never fires *)
+Corollary model_rmw_free_inv : forall st, reach_model_rmw_free st ->
+  Inv2 st /\
+  (forall t c ly o, match_load_to_stores (fst st) t c ly o <> None) /\
+  match_rmw_to_stores (fst st) <> None.
+Proof.
+  intros st Hr. apply reach_model_rmw_free_c0421c4 in Hr.
+  split; [apply reach_inv2_c0421c4; exact Hr | apply mlts_never_none_c0421c4; exact Hr].
+Qed.
+
+Print Assumptions mstep_ext_c0421c4.
+Print Assumptions mstep_inv_c0421c4.
 Print Assumptions minit_inv.
-Print Assumptions reach_inv.
-Print Assumptions mlts_never_none.
-Print Assumptions step_stable.
-Print Assumptions run_stable.
-Print Assumptions run_knows.
-Print Assumptions CoRR_CoWR.
-Print Assumptions CoRR_CoWR_rmw.
-Print Assumptions CoWW_CoRW.
-Print Assumptions store_knows.
-Print Assumptions load_knows.
-Print Assumptions reach_inv2.
-Print Assumptions CoRR_same_thread.
-Print Assumptions CoWR_same_thread.
-Print Assumptions CoRW_same_thread.
-Print Assumptions CoWW_same_thread.
-Print Assumptions sync_knows.
+Print Assumptions reach_inv_c0421c4.
+Print Assumptions mlts_never_none_c0421c4.
+Print Assumptions step_stable_c0421c4.
+Print Assumptions run_stable_c0421c4.
+Print Assumptions run_knows_c0421c4.
+Print Assumptions CoRR_CoWR_c0421c4.
+Print Assumptions CoRR_CoWR_rmw_c0421c4.
+Print Assumptions CoWW_CoRW_c0421c4.
+Print Assumptions store_knows_c0421c4.
+Print Assumptions load_knows_c0421c4.
+Print Assumptions reach_inv2_c0421c4.
+Print Assumptions CoRR_same_thread_c0421c4.
+Print Assumptions CoWR_same_thread_c0421c4.
+Print Assumptions CoRW_same_thread_c0421c4.
+Print Assumptions CoWW_same_thread_c0421c4.
+Print Assumptions sync_knows_c0421c4.
 Print Assumptions coherence_counterexample_before_fix.
 Print Assumptions coherence_counterexample_repaired.
 Print Assumptions corr_counterexample_before_fix.
 Print Assumptions assert_ne_counterexample_before_fix.
 Print Assumptions rmw_counterexample_before_fix.
 Print Assumptions stale_read_example.
-Print Assumptions rmw_gap_example.
-Print Assumptions mrun_inv.
-Print Assumptions atomic_load_g_true.
-Print Assumptions atomic_rmw_g_true.
+Print Assumptions rmw_gap_before_fix.
+Print Assumptions rmw_gap_refused.
+Print Assumptions model_alc_no_src.
+Print Assumptions mrun_model_eq.
+Print Assumptions reach_model_rmw_free_c0421c4.
+Print Assumptions model_rmw_free_inv.
+Print Assumptions model_refuses_old_counterexamples.
+Print Assumptions search_closure_clean.
+Print Assumptions search_closure_c0421c4.
+Print Assumptions mrun_inv_c0421c4.
+Print Assumptions atomic_load_g_model.
+Print Assumptions atomic_rmw_g_model.
